@@ -501,15 +501,31 @@ func ruleTTMLAttributes(p *Prog, l *Ledger, tier string) {
 				}
 				walk(re)
 			}
+			// handled: compared with a constant, or a key of a constant table that is looked up, in
+			// UnmarshalText or a library helper it calls
 			handled := strset{}
-			for _, b := range um.Blocks {
-				for _, ins := range b.Instrs {
-					if bo, ok := ins.(*ssa.BinOp); ok && bo.Op == token.EQL {
-						if s, ok := constStr(bo.Y); ok {
-							handled.add(s)
+			for _, h := range p.Helpers(um) {
+				if fnPkg(h) != p.LibSSA {
+					continue
+				}
+				for _, b := range h.Blocks {
+					for _, ins := range b.Instrs {
+						if bo, ok := ins.(*ssa.BinOp); ok && bo.Op == token.EQL {
+							if s, ok := constStr(bo.Y); ok {
+								handled.add(s)
+							}
+							if s, ok := constStr(bo.X); ok {
+								handled.add(s)
+							}
 						}
-						if s, ok := constStr(bo.X); ok {
-							handled.add(s)
+						if lk, ok := ins.(*ssa.Lookup); ok && lk.CommaOk {
+							if u, ok := lk.X.(*ssa.UnOp); ok {
+								if gl, ok := u.X.(*ssa.Global); ok {
+									for _, k := range p.globalMapKeys(gl.Name()) {
+										handled.add(k)
+									}
+								}
+							}
 						}
 					}
 				}
